@@ -253,9 +253,16 @@ func TestVerifReaderTrace(t *testing.T) {
 			res.Same = true
 			enc.Encode(res)
 		}
-		for k := 0; k < 68; k++ {
+		// single requests of several thousand octets (jumbo datagrams, long variable-length fields), then many smaller ones
+		step("read", 3000)
+		step("read", 2049)
+		step("read", 2048)
+		step("read", 5000)
+		step("peek", 4097)
+		for k := 0; k < 55; k++ {
 			step("read", 960)
 		}
+		step("read", 483)
 		for _, x := range [][2]interface{}{{"uint", 8}, {"read", 240}, {"uint", 4}, {"uint", 2}, {"uint", 1}, {"obs", 0}, {"uint", 1}, {"obs", 0},
 			{"uint", 2}, {"peek", 4}, {"peek16", 2}, {"read", 100}, {"uint", 8}, {"read", 400}, {"obs", 0}, {"read", 1}, {"uint", 1}} {
 			step(x[0].(string), x[1].(int))
